@@ -10,6 +10,7 @@ Decided clauses:
  4 everything is rebuilt from empty containers (clear + resize) so expansions restart from the
    zero-initialised state established by the group constructors (C06.1)
 """
+import os
 import re
 
 import tbf
@@ -114,6 +115,41 @@ def construction_facts(facts, fn, pos_var_names):
     return out
 
 
+def kept_groups_guard(facts, rebuild, fm):
+    """the IfStmt of rebuild() under which the particle groups are NOT re-created, when its condition is computed from the result of the
+    sorter's splitInGroups() (directly or through a flag local assigned from it); None when the groups are always re-created or the test
+    does not consult the split"""
+    b = tbf.body(rebuild)
+    tbf.link_parents(b)
+    split = set(v["did"] for v in walk(b) if v.get("k") == "VarDecl" and kids(v) and any(tbf.callee_name(c) == "splitInGroups" for c in walk(v) if c.get("k") in ("CallExpr", "CXXMemberCallExpr")))
+    if not split:
+        return None
+    eb = [c for c in walk(b) if c.get("k") in ("CallExpr", "CXXMemberCallExpr") and tbf.callee_name(c) == "emplace_back" and tbf.call_base(c) is not None
+          and strip(tbf.call_base(c)).get("name") == "particleGroups"]
+    for c in eb:
+        for a in tbf.ancestors(c):
+            if a.get("k") != "IfStmt" or a.get("constexpr"):
+                continue
+            cond = [y for y in kids(a) if y.get("k") != "DeclStmt"][0]
+            seen, todo = set(), [cond]
+            while todo:
+                n = todo.pop()
+                for y in walk(n):
+                    if y.get("k") == "DeclRefExpr" and y.get("did") is not None:
+                        if y["did"] in split:
+                            return a
+                        if y["did"] not in seen:
+                            seen.add(y["did"])
+                            d = fm.decls.get(y["did"])
+                            if d is not None and d.get("k") == "VarDecl" and kids(d):
+                                todo.append(kids(d)[0])
+                            for x in walk(b):
+                                if x.get("k") in ("BinaryOperator", "CompoundAssignOperator") and x.get("op", "").endswith("=") and x.get("op") not in ("==", "!=", "<=", ">=") \
+                                        and strip(kids(x)[0]).get("did") == y["did"]:
+                                    todo.append(kids(x)[1])
+    return None
+
+
 def derived_state(facts, res, R="C13.5.derived-state", cls="TbfTree", structural=("cellBlocks", "particleGroups")):
     """Anything the tree remembers ABOUT its groups outside the groups themselves (a lazily built table of particle slots, a
     directory, a hint) is derived state: every member function that clears / refills the group containers - rebuild() - must
@@ -202,6 +238,118 @@ def derived_state(facts, res, R="C13.5.derived-state", cls="TbfTree", structural
     return len(derived)
 
 
+_VIEW = re.compile(r"(\w+)\.(?:template)?getViewerForBlock(?:Const)?<(\w+)>")
+
+
+def results_follow_particle(facts, res, R="C13.6.results-follow-the-particle", cls="TbfParticlesContainer", tree_cls="TbfTree"):
+    """C13.6: the original index stored at a storage slot names the particle whose data AND accumulated results sit at that slot.  Outside
+    the constructor (where the results are zero) whoever rewrites the index of a slot must, in the same function, also write the results of
+    that slot; otherwise the results stay with the slot while the label moves to another particle, and everything read by original index
+    after a rebuild (getAllParticlesRhs, the scatter of rebuild()) returns another particle's results.
+    Sites: (i) methods of the particles container assigning through the viewer of the index block (the block getParticleIndexes() reads);
+    (ii) leaf visitors of the tree writing through a non-const index pointer."""
+    gi = [m for m in facts.methods_of(cls) if m["name"] == "getParticleIndexes" and tbf.body(m) is not None]
+    if not gi:
+        raise AnalysisBroken("%s::getParticleIndexes not found: the index block cannot be identified" % cls)
+    blocks = set(b_ for r_ in walk(tbf.body(gi[0])) if r_.get("k") == "ReturnStmt" for b_ in _VIEW.findall(facts.ntext(r_)))
+    if len(blocks) != 1:
+        raise AnalysisBroken("%s::getParticleIndexes: index block not identified (%s)" % (cls, sorted(blocks)))
+    idxblock = list(blocks)[0]
+    nctor = nother = 0
+    relabel = {}
+    for m in facts.methods_of(cls):
+        b = tbf.body(m)
+        if b is None or m.get("inst"):
+            continue
+        views = {}
+        for v in walk(b):
+            if v.get("k") == "VarDecl" and kids(v):
+                mm = _VIEW.search(facts.ntext(kids(v)[0]))
+                if mm:
+                    views[v["did"]] = (mm.group(1), mm.group(2))
+        wrote = {}
+        for x in walk(b):
+            if not (x.get("k") in ("BinaryOperator", "CXXOperatorCallExpr", "CompoundAssignOperator") and x.get("op", "").endswith("=") and x.get("op") not in ("==", "!=", "<=", ">=")):
+                continue
+            lhs = kids(x)[0] if x.get("k") != "CXXOperatorCallExpr" else kids(x)[1]
+            lt = facts.ntext(lhs)
+            if "getItem" not in lt:
+                continue
+            blk = None
+            mm = _VIEW.search(lt)
+            if mm:
+                blk = (mm.group(1), mm.group(2))
+            else:
+                for y in walk(lhs):
+                    if y.get("k") == "DeclRefExpr" and y.get("did") in views:
+                        blk = views[y["did"]]
+            if blk:
+                wrote.setdefault(blk, x)
+        if idxblock in wrote:
+            x = wrote[idxblock]
+            others = [k for k in wrote if k[0] != idxblock[0]]
+            if m["kind"] == "CXXConstructor":
+                nctor += 1
+                res.instance(R, "%s constructor" % cls, facts.loc(x), "index slots written at construction (results start at zero)")
+            else:
+                nother += 1
+                res.instance(R, "%s::%s" % (cls, m["name"]), facts.loc(x), "rewrites index slots; also writes %s" % sorted(others))
+                if not others:
+                    relabel[m["name"]] = (m, x)
+
+    # callers in the tree: a call of a relabel-only method must be followed, on every path, by the scatter of the gathered results
+    def _branches(node):
+        out = set()
+        prev = node
+        for a in tbf.ancestors(node):
+            if a.get("k") == "IfStmt":
+                cc = [y for y in kids(a) if y.get("k") != "DeclStmt"]
+                for i_, c_ in enumerate(cc[1:], 1):
+                    if c_ is prev:
+                        out.add((id(a), i_))
+            prev = a
+        return out
+    nvis = ncalls = 0
+    for tcls in ([tree_cls] if tree_cls else []):
+        for m in facts.methods_of(tcls):
+            b = tbf.body(m)
+            if b is None or m.get("inst"):
+                continue
+            tbf.link_parents(b)
+            scatters = []
+            sites = []
+            for lam in walk(b):
+                if lam.get("k") != "LambdaExpr":
+                    continue
+                ps = lam.get("params") or []
+                ip = [p_ for p_ in ps if re.match(r"^(long|long int) \*( const)?$", p_.get("t", ""))]
+                rp = [p_["did"] for p_ in ps if "Rhs" in p_.get("t", "")]
+                if not ps:
+                    continue
+                nvis += 1
+                asg = [x for x in walk(lam) if x.get("k") in ("BinaryOperator", "CompoundAssignOperator") and x.get("op", "").endswith("=") and x.get("op") not in ("==", "!=", "<=", ">=")]
+                wr = [x for x in asg if any(y.get("k") == "DeclRefExpr" and y.get("did") in rp for y in walk(kids(x)[0]))]
+                if wr:
+                    scatters.append(lam)
+                for p_ in ip:
+                    w = [x for x in asg if any(y.get("k") == "DeclRefExpr" and y.get("did") == p_["did"] for y in walk(kids(x)[0]))]
+                    if w and not wr:
+                        sites.append((w[0], "a leaf visitor of %s() rewrites the particle indexes of the slots (`%s`)" % (m["name"], facts.ntext(w[0])[:60]), "relabel-visitor:%s" % m["name"]))
+            for c in walk(b):
+                if c.get("k") in ("CallExpr", "CXXMemberCallExpr") and tbf.callee_name(c) in relabel:
+                    sites.append((c, "%s() calls %s(), which rewrites the particle index stored at the slots of block %s<%s> and writes no block of the results memory" % (m["name"], tbf.callee_name(c), idxblock[0], idxblock[1]), "relabel:%s" % tbf.callee_name(c)))
+            for (site, what, key) in sites:
+                ncalls += 1
+                sb = _branches(site)
+                cover = [l_ for l_ in scatters if l_["l"][1] > site["l"][1] and _branches(l_) <= sb]
+                res.instance(R, "%s::%s %s" % (tcls, m["name"], key), facts.loc(site), "followed on every path by a scatter of the results: %s" % bool(cover))
+                if not cover:
+                    res.violation(R, tbf.rel(facts.path_of(site)), m["qname"], key, site["l"][1],
+                                  what + ", and no scatter of the gathered results follows on that path: the accumulated results stay with the slot while the slot now names another particle - after such a rebuild, results are returned under the wrong particle")
+    res.instance(R, "summary", "src/core", "index block %s<%s>; written by %d constructor(s), %d other method(s) of which relabel-only: %s; %d leaf visitors of %s read, %d relabelling sites" % (idxblock[0], idxblock[1], nctor, nother, sorted(relabel), nvis, tree_cls, ncalls))
+    return nctor
+
+
 def run(res, tier):
     facts = tbf.scan("core")
     res.units.append("umbrella TU 'core': TbfTree constructor, TbfTree::rebuild, TbfTreeTsm::rebuild")
@@ -210,8 +358,23 @@ def run(res, tier):
     res.rule("C13.3 construction facts of rebuild() (sorter type+args, split argument, emplace_back/parent/index calls with argument origins, conditions, level interval) equal the constructor's")
     res.rule("C13.4 rebuild clears both containers and re-creates every group through the constructors that zero-initialise (C06.1)")
     rebuild = tbf.expand_member_helpers(facts, facts.fn("TbfTree::rebuild"))
+    res.rule("C13.6 results follow the particle: outside construction, whoever rewrites the original index stored at a slot also writes that slot's results in the same function")
+    nctor = results_follow_particle(facts, res)
+    res.floor("C13.6", nctor, 1, "constructors writing the index block")
+    fx = os.path.join(tbf.VERIF, "fixtures", "c13_relabel.cpp")
+    ctl = tbf.Result("C13")
+    results_follow_particle(tbf.scan_file(fx, [], [os.path.join(tbf.VERIF, "fixtures") + os.sep]), ctl, tree_cls="Tree")
+    if len(ctl.violations) != 1 or "rebuildBad" not in ctl.violations[0]["function"]:
+        raise AnalysisBroken("positive control fixtures/c13_relabel.cpp: %d of 1 relabelling methods reported" % len(ctl.violations))
+    res.instance("C13.6.results-follow-the-particle", "positive control", "verif:fixtures/c13_relabel.cpp", "1 of 1 seeded constructs reported, the one that writes both silent")
+    relabelled = any(v["rule"].startswith("C13.6") for v in res.violations)
     # 2
-    n = idxdomain.check_function(facts, rebuild, res, "C13.2.gather-scatter")
+    try:
+        n = idxdomain.check_function(facts, rebuild, res, "C13.2.gather-scatter")
+    except AnalysisBroken:
+        if relabelled:
+            return     # the slots are relabelled in place: the gather / scatter model of rebuild() no longer applies, the violation above stands
+        raise
     res.floor("C13.2", n, 2, "copy statements in rebuild's leaf visitors")
     # scatter inverse of gather: some statement writes the per-leaf rhs from the per-particle rhs array and vice versa
     txts = [i["detail"] for i in res.instances if i["rule"] == "C13.2.gather-scatter"]
@@ -257,6 +420,15 @@ def run(res, tier):
     res.instance("C13.3.same-construction", "ctor vs rebuild", facts.loc(rebuild), "%d construction facts in the constructor, %d in rebuild" % (len(ck), len(rk)))
     for k in sorted(ck | rk):
         res.instance("C13.3.same-construction", k[:120], facts.loc(cf.get(k) or rf.get(k)), "in ctor: %s, in rebuild: %s" % (k in ck, k in rk), nontrivial=False)
+    # groups kept under a condition: when the test consults the sorter's own split of the edited particles (the definition of the grouping)
+    # the kept groups may well equal the fresh ones - that equality is value-level and not decided here (analysis broken, no verdict);
+    # a test that does not consult the split at all is a second definition of leaf membership, reported below like any other extra step
+    kept = kept_groups_guard(facts, rebuild, fm)
+    if kept is not None:
+        res.instance("C13.3.same-construction", "kept-groups", facts.loc(kept), "particle groups are re-created only when `%s` fails; the test consults the sorter's split" % facts.ntext(kept["c"][0] if kept.get("k") == "IfStmt" else kept)[:60])
+        if not [v for v in res.violations if not tbf.is_known("C13", v, tbf.load_known())]:
+            raise AnalysisBroken("%s: rebuild() keeps the existing particle groups when a comparison with the sorter's split succeeds: whether the kept groups equal freshly built ones is not decided by the construction-facts rule" % facts.loc(kept))
+        rk = ck = set()
     for k in sorted(ck - rk):
         res.violation("C13.3.same-construction", tbf.rel(facts.path_of(rebuild)), "TbfTree::rebuild", k[:100], rebuild["l"][1],
                       "the constructor builds the tree with `%s` (%s) but rebuild() has no such step: a rebuilt tree differs from a freshly built one" % (k, facts.loc(cf[k])))
